@@ -3,8 +3,10 @@ pub mod evidence;
 pub mod graph;
 pub mod ir;
 pub mod model;
+pub mod recognizer;
 pub mod render;
 pub mod report;
 pub mod rules;
 pub mod sizes;
+pub mod support;
 pub mod values;
